@@ -2,6 +2,8 @@ package main
 
 import (
 	"fmt"
+	"runtime"
+	"strings"
 	"sync"
 
 	"github.com/DrmagicE/gmqtt/pkg/packets"
@@ -22,7 +24,7 @@ var (
 	apiOps      = map[string]func(d *brokerDrv, pos []string, m map[string]string) string{}
 )
 
-func init() { extraOps["race"] = raceOp }
+func init() { extraOps["race"] = raceOp; extraOps["cpub"] = parOp }
 
 func brokerOptions(d *brokerDrv, m map[string]string) []server.Options {
 	var opts []server.Options
@@ -46,6 +48,59 @@ func extraOp(d *brokerDrv, op string, pos []string, m map[string]string) string 
 		return f(d, pos, m)
 	}
 	return "bad-op"
+}
+
+// parOp: `cpub <conn>,<topic>,<qos>,<pid>,<tag> …` — the named connections send these PUBLISH packets at the same moment,
+// each connection its own packets in the order written, from one goroutine per connection.
+func parOp(d *brokerDrv, pos []string, m map[string]string) string {
+	type item struct {
+		c *wire.Conn
+		p *packets.Publish
+	}
+	var order []string
+	by := map[string][]item{}
+	for _, tk := range pos {
+		f := strings.Split(tk, ",")
+		if len(f) != 5 {
+			return "bad-op"
+		}
+		c := d.b.Conns[f[0]]
+		if c == nil || c.EOF() {
+			continue
+		}
+		pp := &packets.Publish{Version: c.Version, TopicName: []byte(unesc(f[1])), Qos: byte(drv.Atoi(f[2])),
+			PacketID: packets.PacketID(drv.Atoi(f[3])), Payload: []byte(unesc(f[4]))}
+		if c.Version == 5 {
+			pp.Properties = &packets.Properties{}
+		}
+		if _, ok := by[f[0]]; !ok {
+			order = append(order, f[0])
+		}
+		by[f[0]] = append(by[f[0]], item{c, pp})
+	}
+	// real parallelism for this op (the drivers otherwise run on one P)
+	prev := runtime.GOMAXPROCS(4)
+	defer runtime.GOMAXPROCS(prev)
+	start := make(chan struct{})
+	var wg sync.WaitGroup
+	for _, n := range order {
+		wg.Add(1)
+		go func(its []item) {
+			defer wg.Done()
+			<-start
+			for _, it := range its {
+				if it.c.Send(it.p) != nil {
+					return
+				}
+				if len(its) > 1 {
+					runtime.Gosched()
+				}
+			}
+		}(by[n])
+	}
+	close(start)
+	wg.Wait()
+	return d.collect("")
 }
 
 // raceOp: `race <n> <cid> v= cs= se=` — n connections send CONNECT with ONE client id at the same moment.
